@@ -2,7 +2,7 @@
    Whatever method computes them, two solutions of the same weighted least-squares problem coincide in
    everything the property lists, for every real field and all dimensions. *)
 From mathcomp Require Import all_ssreflect all_algebra.
-From Gama Require Import LsqSpec.
+From Gama Require Import LsqSpec SubsetProofs.
 Import GRing.Theory Num.Theory.
 Local Open Scope ring_scope.
 
@@ -31,3 +31,15 @@ have Hg := minimisers_differ_in_null Ps Pp Pd Hx Hy.
 by move: (Hreg _ Hg) => /eqP; rewrite subr_eq0 => /eqP.
 Qed.
 Print Assumptions C02_regular_unique.
+
+(* the regularisation subset is given to the solvers as a list of indexes: the selection it defines depends on the list only
+   as a set (AdjCholDec and AdjEnvelope used the raw list before the repair: other cofactors for {1,1,2,2} than for {1,2}) *)
+Theorem C02_regularisation_list_is_a_set (F : realFieldType) (n : nat) (l1 l2 : seq 'I_n) :
+  l1 =i l2 -> @selmx F n l1 = @selmx F n l2.
+Proof. exact: selmx_eq_mem. Qed.
+Print Assumptions C02_regularisation_list_is_a_set.
+
+Theorem C02_repeated_indexes_do_not_matter (F : realFieldType) (n : nat) (l : seq 'I_n) :
+  @selmx F n (undup l) = @selmx F n l /\ (@selmx F n l)^T = @selmx F n l /\ @selmx F n l *m @selmx F n l = @selmx F n l.
+Proof. split; [exact: selmx_undup | split; [exact: selmx_sym | exact: selmx_idem]]. Qed.
+Print Assumptions C02_repeated_indexes_do_not_matter.
